@@ -178,8 +178,8 @@ RAW_EXTRA = [
     (r'Box::from_raw\s*\(', 'Box::from_raw'),
     (r'Box::into_raw\s*\(', 'Box::into_raw'),
     (r'Box::default\s*\(\s*\)', 'Box::default()'),
-    (r'\.\s*send\s*\(\s*info\s*\)', 'send(info)'),
-    (r'\.\s*recv\s*\(\s*\)', 'recv()'),
+    (r'\w+\s*\.\s*send\s*\(\s*info\s*\)', 'send(info)'),
+    (r'\w+\s*\.\s*recv\s*\(\s*\)', 'recv()'),
     (r'\.\s*is_null\s*\(\s*\)', 'is_null()'),
     (r'\.\s*as_ref\s*\(\s*\)', 'as_ref()'),
     (r'assert!\s*\(', 'assert!'),
